@@ -18,7 +18,7 @@ from .projgen import Project, SNIPPETS, C_PRELUDE, CPP_PRELUDE, _fmt
 
 SHAPES_ANY = ['null', 'uninit', 'array', 'chain_null', 'chain_uninit', 'chain_array', 'null_local_proto',
               'null_cond', 'unused', 'used_other', 'used_fptr', 'used_samefile', 'used_macro',
-              'ptrarith', 'null_struct']
+              'ptrarith', 'null_struct', 'null_maybe', 'null_malloc']
 SHAPES_CPP = ['odr', 'odr_same', 'member_null', 'used_template', 'member_unused', 'ns_unused']
 
 
@@ -71,6 +71,22 @@ class Builder:
             else:
                 B[b] += 'void cncall_%d(void) {\n    int *q = 0;\n    cn_%d(q);\n}\n\n' % (n, n)
             self.aimed.append('ctunullpointer')
+        elif shape == 'null_maybe':
+            # value 0 only possible (condition): the call summary carries warning="true"
+            a, b = self.pick(2)
+            self.decl([a, b], 'void cm_%d(int *p);\n' % n)
+            B[a] += 'void cm_%d(int *p) {\n    *p = %d;\n}\n\n' % (n, r.randint(1, 9))
+            B[b] += ('int cmcall_%d(int *q) {\n    int r = 0;\n    if (!q)\n        r = 1;\n    cm_%d(q);\n    return r;\n}\n\n'
+                     % (n, n))
+            self.aimed.append('ctunullpointer')
+        elif shape == 'null_malloc':
+            # unknown-function-return value: ctunullpointerOutOfMemory
+            a, b = self.pick(2)
+            self.decl([a, b], 'void co_%d(int *p);\n' % n)
+            B[a] += 'void co_%d(int *p) {\n    *p = %d;\n}\n\n' % (n, r.randint(1, 9))
+            B[b] += ('void cocall_%d(void) {\n    int *q = (int*)malloc(sizeof(int));\n    co_%d(q);\n    free(q);\n}\n\n'
+                     % (n, n))
+            self.aimed.append('ctunullpointerOutOfMemory')
         elif shape == 'null_struct':
             a, b = self.pick(2)
             self.protos += 'struct CS_%d { int a; int b; };\nint cs_%d(struct CS_%d *s);\n' % (n, n, n)
